@@ -370,6 +370,11 @@ def schedules(ctx):
         val = Valuation(strs={'self.rebalance': name})
         ps = summarise(ctx, fn, policy=same_module, oracle=val)
         if name not in rows:
+            if not all(p.outcome == 'raise' and p.state.exc[1] == 'ValueError' for p in ps) and val.unknown:
+                # the frequency is looked up somewhere the valuation does not decide (a registry filled when the schedule classes are defined): what the look-up
+                # answers for an unknown keyword is not read here
+                ctx.undecided('C13.S4', 'an unknown rebalance frequency is rejected', fn.site(), 'depends on %s' % sorted(set(val.unknown))[:2])
+                continue
             ctx.require(all(p.outcome == 'raise' and p.state.exc[1] == 'ValueError' for p in ps), 'C13.S4', 'an unknown rebalance frequency is rejected', fn.site(), key='C13.S4|unknown')
             continue
         cls, args = rows[name]
